@@ -265,7 +265,7 @@ func (sc *symCtx) symOf(v ssa.Value, pick func(*ssa.Phi) ssa.Value, depth int) (
 		return sc.structField(x.X, x.Field, 0)
 	case *ssa.Call:
 		cc := x.Common()
-		if g := cc.StaticCallee(); g != nil && !isPkgFunc(cc, "math", "Log") && !isPkgFunc(cc, "math", "Pow") {
+		if g := cc.StaticCallee(); g != nil && !isPkgFunc(cc, "math", "Log") && !isPkgFunc(cc, "math", "Pow") && !isPkgFunc(cc, "math", "Exp") {
 			if ret := sc.inlinable(g); ret != nil && len(ret.Results) == 1 {
 				sc.bind(g, x)
 				return sc.symOf(ret.Results[0], pick, depth+1)
@@ -278,6 +278,12 @@ func (sc *symCtx) symOf(v ssa.Value, pick func(*ssa.Phi) ssa.Value, depth int) (
 				return frac{}, false
 			}
 			return sc.apply("log", a), true
+		case isPkgFunc(cc, "math", "Exp"):
+			a, ok := sc.symOf(cc.Args[0], pick, depth+1)
+			if !ok {
+				return frac{}, false
+			}
+			return sc.apply("exp", a), true
 		case isPkgFunc(cc, "math", "Pow"):
 			a, ok1 := sc.symOf(cc.Args[0], pick, depth+1)
 			b, ok2 := sc.symOf(cc.Args[1], pick, depth+1)
